@@ -458,6 +458,9 @@ def prop_C15(repo, tier):
             res.add(f['rule'], f['func'], f['construct'], False, f['detail'], f['file'], f['line'], f['witness'])
         res.rules['STALE-CACHE'] = STALE_TEXT
         res.add('STALE-CACHE', 'getters', 'property getters evaluated by the analysed slices', True)
+        res.rules['ZERO-VS-NONE'] = ('no accessor tests the truth value of something that is None when the document lacks it and a number when it has it '
+                                     '(a duration or offset of 0 is data and must not be treated as missing)')
+        res.add('ZERO-VS-NONE', 'accessors', 'conditions on optional numbers in the analysed slices', True)
         order_pipe(res, acc, LISTINGS)
         for entry, (ptag, tag) in READS_OWN_TAG.items():
             reads = [tuple(x) for x in acc['reads'].get(entry, [])]
